@@ -64,7 +64,7 @@ def corrupt_store_traces():
 
 
 def deviation_paths():
-    """witnesses of the open parser deviations: with the deviation enabled TLC prints a second path"""
+    """witnesses of the parser deviations (Dev_OptionalTagsRefused is retired: fixed by f1a7356, kept disabled in the specification): with the deviation enabled TLC prints a second path"""
     from . import ptrace, lexref
     rows = []
     for dev, text in (("Dev_LateDetection", b"stop ( }"), ("Dev_OptionalTagsRefused", b'require "imap4flags"; keep :flags "a";')):
